@@ -305,6 +305,10 @@ def route_case(ctx, case):
             from vlib.core import HarnessError
             raise HarnessError('C14 case did not settle')
         nt_after = conn.networking_thread
+        # (a session a handler started is still running: only the handles
+        # of the faulted link are expected to be closed by now)
+        handles_after = [h for h in world.open_handles()
+                         if h.endswith('link 0')] if state == 'done' else []
         recorded = conn.exception
         recorded_info = conn.exc_info
         links_closed = [l.closed_by_client() for l in world.links]
@@ -433,6 +437,9 @@ def route_case(ctx, case):
     # X3
     if nt_after is not None:
         ctx.fail('route', 'X3-networking_thread-not-cleared', case)
+    if handles_after and did_reconnect != 'reconnect_direct':
+        ctx.fail('route', 'X3-descriptor-left-open', case, handles_after,
+                 'every connected socket and its file object closed')
     if (not links_closed or not links_closed[0]) and \
             did_reconnect != 'reconnect_direct':
         ctx.fail('route', 'X3-link-left-open', case)
